@@ -4,7 +4,9 @@ Decided:
   R04.a  conflict map complete: check_middlewares folds every ``*provides`` attribute of Middleware and
          every item of args_dict into one map and raises NameError for any name with more than one
          provider; BoundRoute.__init__ passes url / builtins / resources sources (resources = application
-         and route layers) and the merged middleware list;
+         and route layers) and the merged middleware list; that list holds every middleware of the route and of the
+         binding application: merge_middlewares leaves an old one out only when it is a unique type already present
+         (a second instance of a non-unique class must reach the conflict map);
   R04.b  writer/reader tables: every name the framework itself injects (execute(), dispatch(), the inner
          name, the ``context`` variable of the request core) is in RESERVED_ARGS and RESERVED_ARGS holds
          nothing else; the names removed from request/endpoint availability are exactly
@@ -14,6 +16,7 @@ Decided:
          arguments, make_middleware_chain); a slot function whose first parameter is not ``next`` is a
          TypeError; check_middleware runs for every middleware at application and at route level;
   R04.e  next/context placement: R01.b / R01.d.
+  (R04.a/c/d/e also: building the message of the NameError / TypeError cannot itself raise -- chain.check_raise_total.)
 Declined: nothing of substance (Python raising NameError/TypeError is assumed).
 """
 import ast
@@ -24,7 +27,7 @@ from ..layers import layers_of_var, layers_of_value
 from ..astutil import argn, assigned_value
 from . import chain
 from .common import (cfg_of, fkey, conds, has_cond, cond_texts, stmts_of, walk_body, call_tail, call_name, returns_of,
-                     raises_of, raise_type, stmt_of, kwarg)
+                     raises_of, raise_type, stmt_of, kwarg, implies_absent)
 
 CORE, ROUTE, APP = 'clastic.middleware.core', 'clastic.route', 'clastic.application'
 
@@ -104,23 +107,97 @@ def check_conflict_map(rep):
                 return c
         return None
 
-    def iter_attrs(loop):
-        """Attributes of the middleware a loop walks: ``mw.a`` -> {a}; ``getattr(mw, v)`` with v ranging over a constant
-        tuple of names in an enclosing loop -> those names."""
-        it = unwrap(loop.iter)
-        if isinstance(it, ast.Attribute) and norm(it.value) == mwv:
-            return {it.attr}
-        if isinstance(it, ast.Call) and call_name(it) == 'getattr' and len(it.args) == 2 and norm(it.args[0]) == mwv and \
-                isinstance(it.args[1], ast.Name):
-            cur = par.get(loop)
-            while cur is not None and cur is not outer[0]:
-                if isinstance(cur, ast.For) and norm(cur.target) == it.args[1].id:
-                    vals = repo.try_fold(cur.iter, core)
-                    if isinstance(vals, (tuple, list)) and all(isinstance(v, str) for v in vals):
-                        return set(vals)
+    def const_bindings(fnode_par, node, stop, mod):
+        """Names bound by the ``for`` statements enclosing ``node`` (up to ``stop``) that walk a constant table:
+        name -> list of the constants it takes (a tuple target takes the columns of a table of tuples)."""
+        env = {}
+        cur = fnode_par.get(node)
+        while cur is not None and cur is not stop:
+            if isinstance(cur, ast.For):
+                vals = repo.try_fold(cur.iter, mod)
+                if isinstance(vals, (tuple, list)) and vals:
+                    tg = cur.target
+                    if isinstance(tg, ast.Name):
+                        env.setdefault(tg.id, list(vals))
+                    elif isinstance(tg, (ast.Tuple, ast.List)) and all(isinstance(x, ast.Name) for x in tg.elts) and \
+                            all(isinstance(v, (tuple, list)) and len(v) == len(tg.elts) for v in vals):
+                        for i, x in enumerate(tg.elts):
+                            env.setdefault(x.id, [v[i] for v in vals])
+            cur = fnode_par.get(cur)
+        return env
+
+    def attrs_of(e, who, env, fnode, mod, depth=0):
+        """Attributes of the middleware ``who`` whose elements the iterable ``e`` yields (each of them, unconditionally):
+        ``who.a``; ``getattr(who, v)`` with v ranging over a constant table in an enclosing loop; itertools.chain of such,
+        ``+``; a local naming one; a generator function of the module that yields them from loops of these kinds."""
+        if depth > 4:
+            return set()
+        e = unwrap(e)
+        if isinstance(e, ast.Attribute) and norm(e.value) == who:
+            return {e.attr}
+        if isinstance(e, ast.Call) and call_name(e) == 'getattr' and len(e.args) == 2 and not e.keywords and norm(e.args[0]) == who:
+            k = e.args[1]
+            if isinstance(k, ast.Name) and k.id in env and all(isinstance(v, str) for v in env[k.id]):
+                return set(env[k.id])
+            v = repo.try_fold(k, mod)
+            return {v} if isinstance(v, str) else set()
+        if isinstance(e, ast.Call) and call_name(e) in ('chain', 'itertools.chain') and not e.keywords:
+            out = set()
+            for a_ in e.args:
+                if isinstance(a_, ast.Starred):
                     return set()
-                cur = par.get(cur)
+                out |= attrs_of(a_, who, env, fnode, mod, depth + 1)
+            return out
+        if isinstance(e, ast.Call) and call_name(e) in ('chain.from_iterable', 'itertools.chain.from_iterable') and len(e.args) == 1 and \
+                isinstance(e.args[0], (ast.Tuple, ast.List)) and not any(isinstance(x, ast.Starred) for x in e.args[0].elts):
+            out = set()
+            for a_ in e.args[0].elts:
+                out |= attrs_of(a_, who, env, fnode, mod, depth + 1)
+            return out
+        if isinstance(e, ast.BinOp) and isinstance(e.op, ast.Add):
+            return attrs_of(e.left, who, env, fnode, mod, depth + 1) | attrs_of(e.right, who, env, fnode, mod, depth + 1)
+        if isinstance(e, ast.Name) and fnode is not None:
+            vals = assigned_value(fnode, e.id)
+            if len(vals) == 1 and vals[0][2] is None and isinstance(vals[0][0], ast.Assign):
+                return attrs_of(vals[0][1], who, env, fnode, mod, depth + 1)
+            return set()
+        if isinstance(e, ast.Call) and isinstance(e.func, ast.Name) and len(e.args) == 1 and not e.keywords and norm(e.args[0]) == who:
+            # a generator of the module: ``def it(m): for n in TABLE: for x in getattr(m, n): yield x``
+            kind, gmod, g = repo.resolve(mod, e.func.id)
+            if kind == 'func' and gmod is not None and not gmod.external and len(g.params()) == 1 and not g.node.decorator_list:
+                return generator_attrs(g, gmod, depth + 1)
         return set()
+
+    def generator_attrs(g, gmod, depth):
+        gp = g.params()[0]
+        gpar = _parents(g.node)
+        body = [s for s in g.node.body if not (isinstance(s, ast.Expr) and isinstance(s.value, ast.Constant))]
+        out = set()
+
+        def rec(stmts):
+            for s in stmts:
+                if not isinstance(s, ast.For) or s.orelse:
+                    return False
+                vals = repo.try_fold(s.iter, gmod)
+                if isinstance(vals, (tuple, list)) and vals:
+                    if not rec(s.body):
+                        return False
+                    continue
+                # a value loop: its body is exactly ``yield <loop variable>``
+                if not (isinstance(s.target, ast.Name) and len(s.body) == 1 and isinstance(s.body[0], ast.Expr) and
+                        isinstance(s.body[0].value, ast.Yield) and isinstance(s.body[0].value.value, ast.Name) and
+                        s.body[0].value.value.id == s.target.id):
+                    return False
+                got = attrs_of(s.iter, gp, const_bindings(gpar, s, g.node, gmod), g.node, gmod, depth)
+                if not got:
+                    return False
+                out.update(got)
+            return True
+        return out if body and rec(body) else set()
+
+    def iter_attrs(loop):
+        """Attributes of the middleware whose elements a loop inside the middleware loop walks."""
+        return attrs_of(loop.iter, mwv, const_bindings(par, loop, outer[0], core), cm.node, core)
     inner_loops = [s for s in ast.walk(outer[0]) if isinstance(s, ast.For) and s is not outer[0]]
     for a in prov_attrs:
         loops = [l for l in inner_loops if a in iter_attrs(l)]
@@ -133,7 +210,34 @@ def check_conflict_map(rep):
                   'mw.%s is not folded into the conflict map (a duplicate offered through it is silently shadowed)' % a, core,
                   loops[0] if loops else outer[0])
     ad = cps[1] if len(cps) > 1 else 'args_dict'
-    src_loops = [s for s in stmts_of(cm.node) if isinstance(s, ast.For) and norm(unwrap(s.iter)) == '%s.items()' % ad]
+    def is_args_dict(e, depth=0):
+        """``e`` is the args_dict parameter, possibly defaulted (``args_dict or {}``), copied, or under a local name."""
+        if depth > 3:
+            return False
+        if isinstance(e, ast.BoolOp) and isinstance(e.op, ast.Or) and len(e.values) == 2:
+            d = e.values[1]
+            empty = (isinstance(d, ast.Dict) and not d.keys) or (isinstance(d, ast.Call) and call_name(d) == 'dict' and not d.args and not d.keywords)
+            return empty and is_args_dict(e.values[0], depth)
+        if isinstance(e, ast.Call) and call_name(e) == 'dict' and len(e.args) == 1 and not e.keywords:
+            return is_args_dict(e.args[0], depth)
+        if isinstance(e, ast.Name):
+            vals = assigned_value(cm.node, e.id)
+            if e.id == ad:
+                return all(idx is None and isinstance(st_, ast.Assign) and is_args_dict_rebind(v, st_) for st_, v, idx in vals)
+            return len(vals) == 1 and vals[0][2] is None and isinstance(vals[0][0], ast.Assign) and is_args_dict(vals[0][1], depth + 1)
+        return False
+
+    def is_args_dict_rebind(v, st_):
+        # args_dict = args_dict or {}   /   if not args_dict: args_dict = {}   (if args_dict is None: ...)
+        empty = lambda d: (isinstance(d, ast.Dict) and not d.keys) or norm(d) == 'dict()'
+        if isinstance(v, ast.BoolOp) and isinstance(v.op, ast.Or) and len(v.values) == 2 and norm(v.values[0]) == ad and empty(v.values[1]):
+            return True
+        return empty(v) and implies_absent(conds(cm, st_), ad)
+
+    def items_of_args_dict(e):
+        e = unwrap(e)
+        return isinstance(e, ast.Call) and isinstance(e.func, ast.Attribute) and e.func.attr == 'items' and not e.args and is_args_dict(e.func.value)
+    src_loops = [s for s in stmts_of(cm.node) if isinstance(s, ast.For) and items_of_args_dict(s.iter)]
     ok = len(src_loops) == 1 and isinstance(src_loops[0].target, ast.Tuple) and len(src_loops[0].target.elts) == 2
     if ok:
         srcv, listv = [norm(x) for x in src_loops[0].target.elts]
@@ -175,6 +279,7 @@ def check_conflict_map(rep):
                         built_by.append(lp)
     rep.check('R04.a', fkey(cm, 'conflicts'), ok, 'any name with more than one provider raises NameError' if ok else
               'a name with several providers does not (always) raise NameError', core, rz[0] if rz else cm.node)
+    chain.check_raise_total(rep, 'R04.a', cm, rz, 'the NameError for conflicting provides')
     if rz:
         ifs = [s for s in stmts_of(cm.node) if isinstance(s, ast.If) and any(r in list(ast.walk(s)) for r in rz)]
         ok = bool(ifs) and cfg.must_pass(cfg.nodes_of_all(ifs), cfg.entry, cfg.exit, normal_only=True) and \
@@ -384,6 +489,7 @@ def check_reserved_resources(rep):
                 guard_if = encl[:1]
     rep.check('R04.c', fkey(ai, 'resources vs reserved'), ok, 'resources & RESERVED_ARGS non-empty => NameError (exact intersection)' if ok else
               'Application.__init__ does not raise NameError for resources named like built-ins', app, rz[0] if rz else ai.node)
+    chain.check_raise_total(rep, 'R04.c', ai, rz, 'the NameError for resources named like built-ins')
     binds = [s for s in stmts_of(ai.node) if any(isinstance(c, ast.Call) and (call_tail(c) == 'bind' or norm(c.func) == 'self.add') for c in ast.walk(s))
              and not isinstance(s, (ast.If,))]
     ok = bool(guard_if) and bool(binds) and all(acfg.must_pass(acfg.nodes_of_all(guard_if), acfg.entry, acfg.nodes_of(b)) for b in binds)
@@ -399,13 +505,36 @@ def check_slots(rep):
     repo = rep.repo
     core, app = repo.mod(CORE), repo.mod(APP)
     slots = {}
-    for q in ('check_middleware', 'Middleware.requires', 'Middleware.arguments'):
-        f = core.func(q)
+
+    def slots_of(f, depth=0):
+        """The slot names whose functions ``f`` examines: a loop over a constant table of names (or of tuples, the column
+        that is looked up with getattr), written in ``f`` or in a generator of the module that ``f`` loops over."""
         for s in stmts_of(f.node):
-            if isinstance(s, ast.For):
-                v = repo.try_fold(s.iter, core)
-                if isinstance(v, (tuple, list)) and v and all(isinstance(x, str) for x in v):
-                    slots[q] = tuple(v)
+            if not isinstance(s, ast.For):
+                continue
+            v = repo.try_fold(s.iter, f.mod)
+            if isinstance(v, (tuple, list)) and v and all(isinstance(x, str) for x in v):
+                return tuple(v)
+            if isinstance(v, (tuple, list)) and v and isinstance(s.target, (ast.Tuple, ast.List)) and all(isinstance(x, ast.Name) for x in s.target.elts) \
+                    and all(isinstance(x, (tuple, list)) and len(x) == len(s.target.elts) for x in v):
+                looked_up = set(norm(c.args[1]) for b in s.body for c in ast.walk(b) if isinstance(c, ast.Call) and call_name(c) == 'getattr'
+                                and len(c.args) >= 2)
+                cols = [i for i, x in enumerate(s.target.elts) if x.id in looked_up]
+                if len(cols) == 1 and all(isinstance(x[cols[0]], str) for x in v):
+                    # (of several loops the first that looks functions up; a table column only read for its provides is R04.a's)
+                    return tuple(x[cols[0]] for x in v)
+            it = s.iter
+            if depth < 2 and isinstance(it, ast.Call) and isinstance(it.func, ast.Name) and len(it.args) == 1 and not it.keywords:
+                kind, gmod, g = repo.resolve(f.mod, it.func.id)
+                if kind == 'func' and gmod is not None and not gmod.external and any(isinstance(n, ast.Yield) for n in ast.walk(g.node)):
+                    got = slots_of(g, depth + 1)
+                    if got:
+                        return got
+        return None
+    for q in ('check_middleware', 'Middleware.requires', 'Middleware.arguments'):
+        got = slots_of(core.func(q))
+        if got:
+            slots[q] = got
     want = tuple(sorted(chain.PHASES))
     for q in ('check_middleware', 'Middleware.requires', 'Middleware.arguments'):
         got = tuple(sorted(slots.get(q, ())))
@@ -433,6 +562,7 @@ def check_slots(rep):
                             ok = True
     rep.check('R04.d', fkey(ckm, 'first parameter next'), ok, "a slot function whose first parameter is not 'next' raises TypeError" if ok else
               "check_middleware no longer rejects slot functions whose first parameter is not 'next'", core, ckm.node)
+    chain.check_raise_total(rep, 'R04.d', ckm, [r for r in rz if raise_type(r) == 'TypeError'], 'the TypeError for a malformed middleware function')
     ok = any(raise_type(r) == 'TypeError' and has_cond(conds(ckm, r), lambda t: isinstance(t, ast.Call) and call_name(t) == 'callable'
                                                        and len(t.args) == 1 and isinstance(t.args[0], ast.Name), False) for r in rz)
     rep.check('R04.d', fkey(ckm, 'callable'), ok, 'a non-callable slot raises TypeError' if ok else 'non-callable slots are not rejected', core, ckm.node)
@@ -449,13 +579,14 @@ def run(rep):
     rep.decide('R04.a conflict map exhaustive; R04.b reserved-name tables agree; R04.c resources vs reserved; '
                'R04.d middleware slots / next-first; R04.e next & context placement')
     rep.decline('nothing of substance: Python raising the exceptions is assumed')
-    rep.rule('R04.a', 'exhaustiveness of the provided_by map; more than one provider => NameError')
+    rep.rule('R04.a', 'exhaustiveness of the provided_by map (all sources, all middlewares of both levels); more than one provider => NameError')
     rep.rule('R04.b', 'set equality between injected built-in names and RESERVED_ARGS')
     rep.rule('R04.c', 'resources & RESERVED_ARGS non-empty => NameError before binding')
     rep.rule('R04.d', 'slot tables agree; first parameter next; check_middleware for every middleware')
     rep.rule('R04.e', 'next forbidden in endpoint/render; context only in render availability')
     g = rep.guard
     g(check_conflict_map, rep)
+    g(chain.check_merge_complete, rep, 'R04.a')
     g(check_reserved_tables, rep)
     g(check_reserved_resources, rep)
     g(check_slots, rep)
